@@ -1,6 +1,5 @@
 import Aplang.Proofs.FloatIndex
 import Aplang.Proofs.FloatTextDefs
-import Mathlib.Tactic.Linarith
 import Mathlib.Tactic.Ring
 /-!
 # Correct rounding from the definitions of the `Float.Model` (piece 3 of `display_reads_back`)
